@@ -75,6 +75,7 @@ type ownCase struct {
 	Pods      [3]ownPod
 	Revs      [3]ownRev // slot 0: data T1 (the set's template), 1: T2, 2: T3
 	EqualNums bool      // all revisions carry the same revision number
+	Reversed  bool      // the revision recording the set's template has the lowest number (a rollback is pending)
 	PinB      bool      // pod 2 carries the label of revision slot 1
 	PinTerm   bool      // ... and is terminating
 	API       string    // "same", "api-deleting", "cache-deleting", "other-uid", "absent"
@@ -82,7 +83,7 @@ type ownCase struct {
 }
 
 func (c ownCase) String() string {
-	return fmt.Sprintf("%s lim=%d pods=%v revs=%v equalnums=%v pinB=%v pinTerminating=%v api=%s paused=%v", c.Policy, c.Limit, c.Pods, c.Revs, c.EqualNums, c.PinB, c.PinTerm, c.API, c.Paused)
+	return fmt.Sprintf("%s lim=%d pods=%v revs=%v equalnums=%v reversed=%v pinB=%v pinTerminating=%v api=%s paused=%v", c.Policy, c.Limit, c.Pods, c.Revs, c.EqualNums, c.Reversed, c.PinB, c.PinTerm, c.API, c.Paused)
 }
 
 func podNameFor(shape string, i int) string {
@@ -143,6 +144,9 @@ func (c ownCase) Build(w *world.World) *world.State {
 		}
 		r := gen.Revision(w, sp, i+1).DeepCopy()
 		r.Revision = int64(3 - i)
+		if c.Reversed {
+			r.Revision = int64(i + 1)
+		}
 		if c.EqualNums {
 			r.Revision = 5
 		}
@@ -283,7 +287,8 @@ func ownGrid(apis []string, policies []string, paused bool, podDepth int, thorou
 			for _, lim := range limits {
 				for _, pinMode := range []int{0, 1, 2} {
 					pin, pinTerm := pinMode > 0, pinMode == 2
-					for _, eq := range []bool{false, true} {
+					for _, num := range []int{0, 1, 2} {
+						eq, rev := num == 1, num == 2
 						if eq && !thorough && lim != 0 {
 							continue
 						}
@@ -291,7 +296,7 @@ func ownGrid(apis []string, policies []string, paused bool, podDepth int, thorou
 							for _, b := range rc {
 								for _, c3 := range rc {
 									c := base
-									c.Limit, c.PinB, c.PinTerm, c.EqualNums = lim, pin, pinTerm, eq
+									c.Limit, c.PinB, c.PinTerm, c.EqualNums, c.Reversed = lim, pin, pinTerm, eq, rev
 									c.Revs = [3]ownRev{a, b, c3}
 									if !emit(c) {
 										return
@@ -316,7 +321,7 @@ func ownCheck(prop string, apis, policies []string, paused bool, differential bo
 	if prop == "C10" {
 		depth = 2
 	}
-	rep.Rule = fmt.Sprintf("ownership snapshot enumeration: set web (r=3, %v, RU p=0) plus a second set with the same selector; (P) pods at 3 ordinals, up to %d of them replaced by any cell of owner{this,none,other UID,other kind,non-controller ref} x labels{match,no match} x name{S-i,S-x,other-i,S-i-j} x terminating, or absent; (R) full product of three revision slots (data T1=the set's template, T2, T3) each absent or owner{this,none,other UID,other kind} x labels{selector,upgrade marker,both}, x revisionHistoryLimit{0,1,10} x pod-label pinning (none / live pod / terminating pod) x equal revision numbers; x API copy of the set %v; paused=%v. One real reconcile per snapshot. %s Non-trivial = at least one write or an error.", policies, depth, apis, paused, ruleText)
+	rep.Rule = fmt.Sprintf("ownership snapshot enumeration: set web (r=3, %v, RU p=0) plus a second set with the same selector; (P) pods at 3 ordinals, up to %d of them replaced by any cell of owner{this,none,other UID,other kind,non-controller ref} x labels{match,no match} x name{S-i,S-x,other-i,S-i-j} x terminating, or absent; (R) full product of three revision slots (data T1=the set's template, T2, T3) each absent or owner{this,none,other UID,other kind} x labels{selector,upgrade marker,both}, x revisionHistoryLimit{0,1,10} x pod-label pinning (none / live pod / terminating pod) x revision numbering (descending with age / all equal / reversed, i.e. a rollback pending); x API copy of the set %v; paused=%v. One real reconcile per snapshot. %s Non-trivial = at least one write or an error.", policies, depth, apis, paused, ruleText)
 	rep.Assumptions = apiAssumptions
 	deadline := explore.Deadline(100*time.Second, 15*time.Minute)
 	judge := monitorOf(prop)
